@@ -239,9 +239,9 @@ def run(prop, tier, seed):
     exes = build_seq_drivers("dbg")
     d = trace_dir(prop)
     if tier == "quick":
-        runs_per_inst, histories, ops = 3, 10, 120
+        runs_per_inst, histories, ops = 3, 11, 120
     else:
-        runs_per_inst, histories, ops = 40, 10, 300
+        runs_per_inst, histories, ops = 40, 11, 300
     jobs = []
     for (db, key), exe in exes.items():
         for r in range(runs_per_inst):
